@@ -310,18 +310,18 @@ def check_case(ctx, rng, idx):
         ok = ok and eq('diearea', list(getattr(d, 'diearea', [])), rec['diearea'])
         ok = ok and eq('rows', list(d.rows), rec['rows'])
         ok = ok and eq('tracks', list(d.tracks), rec['tracks'])
-        ok = ok and eq('via names', sorted(d.vias), sorted(rec['vias']))
+        ok = ok and eq('via names', sorted(d.vias, key=str), sorted(rec['vias'], key=str))
         for name, v in rec['vias'].items():
             for a, e in v.items():
                 ok = ok and eq(f'via {name}.{a}', getattr(d.vias[name], a, None), e)
         ok = ok and eq('components', dict(d.components), rec['components'])
-        ok = ok and eq('pin names', sorted(d.pins), sorted(rec['pins']))
+        ok = ok and eq('pin names', sorted(d.pins, key=str), sorted(rec['pins'], key=str))
         for name, p in rec['pins'].items():
             for a, e in p.items():
                 ok = ok and eq(f'pin {name}.{a}', getattr(d.pins[name], a, None), e)
         for sect in ('specialnets', 'nets'):
             got_nets = getattr(d, sect)
-            ok = ok and eq(f'{sect} names', sorted(got_nets), sorted(rec[sect]))
+            ok = ok and eq(f'{sect} names', sorted(got_nets, key=str), sorted(rec[sect], key=str))
             if not ok:
                 break
             for name, n in rec[sect].items():
@@ -333,8 +333,8 @@ def check_case(ctx, rng, idx):
                 if n['segs'] is None or not ok:
                     continue
                 # via listing: strict, as multisets per via type
-                gv = {k: sorted(v) for k, v in g.vias.items() if len(v) > 0}
-                ev = {k: sorted(v) for k, v in n['vias'].items() if len(v) > 0}
+                gv = {k: sorted(v, key=repr) for k, v in g.vias.items() if len(v) > 0}      # (key=repr: a wrong result may contain None, it must not crash the comparison)
+                ev = {k: sorted(v, key=repr) for k, v in n['vias'].items() if len(v) > 0}
                 ctx.count('via_positions', sum(len(v) for v in ev.values()))
                 ok = ok and eq(f'{sect} {name}.vias', gv, ev)
                 # wire listing per layer: (width, points) in file order; a None at a written * is accepted
@@ -344,8 +344,8 @@ def check_case(ctx, rng, idx):
                     if len(written) >= 2:
                         ew[layer].append((width, written, resolved))
                 ctx.count('wire_point_lists', sum(len(v) for v in ew.values()))
-                if sorted(k for k, v in gw.items() if v) != sorted(ew):
-                    ok = eq(f'{sect} {name}.wires layers', sorted(k for k, v in gw.items() if v), sorted(ew))
+                if sorted((k for k, v in gw.items() if v), key=str) != sorted(ew, key=str):
+                    ok = eq(f'{sect} {name}.wires layers', sorted((k for k, v in gw.items() if v), key=str), sorted(ew, key=str))
                     continue
                 for layer, lst in ew.items():
                     if len(gw[layer]) != len(lst):
